@@ -16,6 +16,7 @@ pub const REQUIRED: &[&str] = &[
     "ends_inside_flag_group",
     "window_edge_period",
     "largest_input",
+    "around_64KiB_multiples",
 ];
 
 pub fn run(cx: &mut Ctx) {
